@@ -78,6 +78,20 @@ def programs(tier):
         arms = [(PInt(0), Block([], Unit)), (PInt(1), Block([Do(tick(2, Int(0)))], Unit)), (PWild, Block([Do(tick(3, Int(0)))], Unit))]
         add(f"discard-match:{sel}", mk(f"c09_dm_{len(out)}", [Let("k", Int(sel)), Do(Match(Var("k"), arms)), println(Str("end"))]))
         add(f"discard-match-int:{sel}", mk(f"c09_dm_{len(out)}", [Let("k", Int(sel)), Do(Match(Var("k"), [(PInt(0), Int(5)), (PInt(1), tick(2, Int(6))), (PWild, tick(3, Int(7)))])), println(Str("end"))]))
+    # discarded matches on literals in which only some arms have an effect (all literal arms empty and the effect in `_`; the
+    # effect in one literal arm only; on strings as well), selected value hitting a literal arm / the default
+    for sel in (0, 7):
+        only_default = [(PInt(0), Block([], Unit)), (PInt(1), Block([], Unit)), (PWild, Block([Do(tick(3, Int(0)))], Unit))]
+        add(f"discard-match:only-default-has-effect:{sel}", mk(f"c09_dm_{len(out)}", [Let("k", Int(sel)), Do(Match(Var("k"), only_default)), println(Str("end"))]))
+        add(f"discard-match:only-default-has-effect:stmt:{sel}", mk(f"c09_dm_{len(out)}", [Let("k", Int(sel)), Stmt(Match(Var("k"), only_default)), println(Str("end"))]))
+        only_lit = [(PInt(0), Block([Do(tick(2, Int(0)))], Unit)), (PInt(1), Block([], Unit)), (PWild, Block([], Unit))]
+        add(f"discard-match:only-literal-arm-has-effect:{sel}", mk(f"c09_dm_{len(out)}", [Let("k", Int(sel)), Do(Match(Var("k"), only_lit)), println(Str("end"))]))
+    for sel in ("a", "zz"):
+        sarms = [(PStr("a"), Block([], Unit)), (PStr("b"), Block([], Unit)), (PWild, Block([Do(tick(3, Int(0)))], Unit))]
+        add(f"discard-match:string:only-default-has-effect:{sel}", mk(f"c09_dm_{len(out)}", [Let("k", Str(sel)), Do(Match(Var("k"), sarms)), println(Str("end"))]))
+    for bsel in (True, False):
+        barms = [(PBool(True), Block([], Unit)), (PBool(False), Block([Do(tick(3, Int(0)))], Unit))]
+        add(f"discard-match:bool:only-false-arm-has-effect:{int(bsel)}", mk(f"c09_dm_{len(out)}", [Let("k", Bool(bsel)), Do(Match(Var("k"), barms)), println(Str("end"))]))
     # effects in nested unused lets inside branches and loop bodies
     add("unused-let-in-arm", mk(f"c09_ula_{len(out)}", [Let("k", Int(1)), Do(Match(Var("k"), [(PInt(1), Block([Let("u", tick(1, Int(3)))], Unit)), (PWild, Unit)])), println(Str("end"))]))
     add("unused-let-in-while", mk(f"c09_ulw_{len(out)}", [Let("i", Call("ref", Int(0))),
